@@ -236,6 +236,8 @@ var MapRichDocs = []string{
 	`{"dependencies":{"b":["c"],"a":[1],"d":{"type":"integer"}},"properties":{"p":{"dependencies":{"x":5,"y":["z"]}}}}`,
 	// keywords that the document's draft does not know stay in the Schema value, untouched by Validate
 	`{"$schema":"http://json-schema.org/draft-07/schema#","contains":{"type":"integer"},"minContains":2,"maxContains":3,"unevaluatedItems":false,"items":{"contains":{"const":1},"minContains":0,"dependentRequired":{"a":["b"]},"prefixItems":[false]},"$defs":{"a":false},"properties":{"b":{"$anchor":"k","dependentSchemas":{"a":false}}}}`,
+	// a long enum whose later members are the ones the instances match (members keep their places)
+	`{"enum":[0,2,3,4,5,6,7,8,9,10,"a",1,null,[9,1],[3,1,2],{"p":9,"q":1}],"items":{"enum":[10,11,12,13,14,15,16,17,18,19,1,2,3,9,7]}}`,
 	// recursive schemas: the same Schema is re-entered for a nested object while the outer object's
 	// properties are still being walked (in whatever order the map yields them)
 	`{"properties":{"name":{"type":"string"},"tag":{"type":"string"},"next":{"$ref":"#"}},"additionalProperties":false}`,
